@@ -12,8 +12,8 @@ LEVEL = "exploration"
 RULE = ("generated operation histories (<=40 steps) over a NonBondEngine with 2-4 molecules x 1-6 nodes in a "
         "rectangular periodic box: add(start=True/False) on an unpositioned node, remove(subset incl. "
         "unpositioned nodes / whole molecule), concatenate, re-add, and queries get_point, compute_force_point "
-        "(with exclusions), pbc_min_dist; 5% of histories start from 5001 positioned dummies so that a start "
-        "placement opens a second search tree. After every step the engine is compared with a dict model: "
+        "(with exclusions), pbc_min_dist; 8% of histories start from 5001 positioned dummies, place nodes before and after the "
+        "start placement that opens a second search tree, remove some and ask for the force where they were. After every step the engine is compared with a dict model: "
         "positions, brute-force minimum-image 12-6 force (analytic and by numerical gradient), internal index "
         "views. non-trivial = history with a removal followed by a force query and >=1 pair interacting across "
         "a box face; distinct = spec hash")
@@ -45,9 +45,27 @@ def _strategy(draw):
     sizes = [draw(st.integers(1, 6)) for _ in range(nmol)]
     types = [[draw(st.integers(0, 2)) for _ in range(s)] for s in sizes]
     box = [draw(st.sampled_from([3.0, 3.7, 4.5, 6.0])) for _ in range(3)]
-    large = draw(st.integers(0, 19)) == 0
+    large = draw(st.integers(0, 11)) == 0
     ops = []
-    nsteps = draw(st.integers(5, 40 if not large else 12))
+    if large:
+        # a history that spreads the nodes of the molecules over both search trees before anything is
+        # removed: placements into the first tree, a start placement (opens the second tree), further
+        # placements, then removals and force queries where the removed residues were
+        def add(start):
+            return {"op": "add", "pick": draw(st.integers(0, 100)), "point": draw(_coord(box)), "start": start,
+                    "near": False, "offset": [0.0, 0.0, 0.0]}
+        ops += [add(False) for _ in range(draw(st.integers(1, 3)))]
+        ops.append(add(True))
+        ops += [add(draw(st.booleans())) for _ in range(draw(st.integers(0, 3)))]
+        for _ in range(draw(st.integers(1, 2))):
+            ops.append({"op": "remove", "mol": draw(st.integers(0, nmol - 1)), "mask": draw(st.integers(1, 63)),
+                        "whole": draw(st.booleans())})
+            for _q in range(draw(st.integers(1, 3))):
+                ops.append({"op": "force", "mol": draw(st.integers(0, nmol - 1)), "node": draw(st.integers(0, 5)),
+                            "point": draw(_coord(box)), "near": False, "ghost": True, "pick": draw(st.integers(0, 100)),
+                            "offset": [draw(st.integers(-400, 400)) / 1000.0 for _ in range(3)],
+                            "exclude_mask": 0})
+    nsteps = draw(st.integers(5, 40 if not large else 8))
     for _ in range(nsteps):
         kind = draw(st.sampled_from(["add", "add", "add", "remove", "force", "force", "get", "concat", "dist"]))
         if kind == "add":
@@ -129,6 +147,8 @@ def check(spec, ctx):
     across_face = False
     opened_second_tree = False
     emptied = False
+    ghosts = []
+    asked_at_ghost = False
 
     def brute_force(point, mol, node, exclude):
         """returns (force vector or inf, ambiguous?) from the model"""
@@ -138,6 +158,8 @@ def check(spec, ctx):
         soft = False
         nonlocal across_face
         for key, pos in model.items():
+            if ndummy and abs(point[0] - pos[0]) > cut_off and abs(abs(point[0] - pos[0]) - box[0]) > cut_off:
+                continue
             vec = min_image(point - pos, box)
             r = float(np.linalg.norm(vec))
             if r > cut_off:
@@ -205,6 +227,7 @@ def check(spec, ctx):
                 for n in nodes:
                     if (mol, n) in model:
                         had_removal = True
+                        ghosts.append(model[(mol, n)])
                     model.pop((mol, n), None)
                 if not [k for k in model if k[0] != 99]:
                     emptied = True
@@ -237,6 +260,10 @@ def check(spec, ctx):
                 if op["near"] and model:
                     anchor = list(model.values())[op["pick"] % len(model)]
                     point = wrap(anchor + np.array(op["offset"]), box)
+                if op.get("ghost") and ghosts:
+                    # where a removed residue used to be
+                    point = wrap(ghosts[op["pick"] % len(ghosts)] + np.array(op["offset"]), box)
+                    asked_at_ghost = True
                 exclude = [n for n in range(sizes[mol]) if (op["exclude_mask"] >> n) & 1]
                 got = engine.compute_force_point(point, mol, node, exclude=exclude)
                 want, hard, soft = brute_force(point, mol, node, {(mol, n) for n in exclude})
@@ -295,6 +322,8 @@ def check(spec, ctx):
                 raise Violation("get_point:stale", f"step {step}: node {key}")
     if opened_second_tree:
         ctx.label("second_tree_opened")
+    if opened_second_tree and asked_at_ghost:
+        ctx.label("two_trees_removal_then_query_at_removed")
     if emptied:
         ctx.label("emptied")
     if across_face:
